@@ -63,9 +63,9 @@ Section Works.
   (* ---- add_sum_pow2_m1 ---- *)
   Theorem add_sum_pow2_m1_works basis be xs s :
     xs <> [] -> all_exist (bc s) xs -> ((2 <= length xs)%nat -> exists b, resolve_basis basis = Ok b) ->
-    has_gate (bc s) "" = false -> (forall k, fresh k <> ""%string) ->
+    (forall k, fresh k <> ""%string) ->
     exists cols s', run fresh (add_sum_pow2_m1 basis be xs) s = Ok (cols, s').
-  Proof. apply add_sum_pow2_m1_ok, Hf. Qed.
+  Proof. intros Hne Hx Hb Hfr. exact (add_sum_pow2_m1_ok fresh Hf Hfr basis be xs s Hne Hx Hb). Qed.
 
   Theorem add_sum_pow2_m1_total_exact basis be xs s :
     xs <> [] -> all_exist (bc s) xs -> ((2 <= length xs)%nat -> exists b, resolve_basis basis = Ok b) ->
@@ -78,7 +78,7 @@ Section Works.
       forall asg xv, bvals (bc s) asg xs xv ->
         exists cvs, Forall2 (bvals (bc s') asg) cols cvs /\ cols_val cvs = ones xv.
   Proof.
-    intros Hne Hx Hb H0 Hfr. destruct (add_sum_pow2_m1_works basis be xs s Hne Hx Hb H0 Hfr) as (cols & s' & E).
+    intros Hne Hx Hb H0 Hfr. destruct (add_sum_pow2_m1_works basis be xs s Hne Hx Hb Hfr) as (cols & s' & E).
     exists cols, s'. split; [exact E|].
     pose proof (gen_only_no_empty fresh _ _ _ _ (go_add_sum_pow2_m1 basis be xs) E H0 Hfr) as H0'.
     destruct (add_sum_pow2_m1_final _ _ _ _ _ _ _ E) as (X & I & O & _ & A & Sh & V).
